@@ -113,13 +113,16 @@ Proof.
 Qed.
 
 Lemma expl_skip_filler : forall (fl : list tline) r st,
-  Forall (fun l => filler_line (tok "c") true (fst l)) fl ->
+  Forall (fun l => filler_line (tok "c") true false (fst l)) fl ->
   expl_lines (map fst fl ++ r) st = expl_lines r st.
 Proof.
   induction fl as [|[l e] fl IH]; intros r st H; [reflexivity|].
   inversion H as [|x y Hl Hr]; subst. cbn [fst] in Hl. cbn [map fst app expl_lines].
   assert (Hline : expl_line l st = POk st).
-  { destruct st as [[nv nc] cls]. destruct Hl as [->|[t [Ht ->]]]; [reflexivity|].
+  { destruct st as [[nv nc] cls]. destruct Hl as [Hb|[ld [t [_ [Hld [Ht ->]]]]]].
+    { unfold expl_line. rewrite <- (app_nil_r l), fields_skip by (apply blanks_fspace; exact Hb).
+      reflexivity. }
+    rewrite (Hld eq_refl). cbn [app].
     unfold expl_line. destruct t as [|t0 t].
     - rewrite app_nil_r. reflexivity.
     - change (tok "c" ++ SP :: t0 :: t) with (tok "c" ++ SP :: (t0 :: t)).
@@ -137,8 +140,8 @@ Proof.
   induction F as [|c F IH]; intros lay n m cls r Hwf.
   - cbn [render_clause_lines fst map app]. rewrite app_nil_r. split; [constructor|reflexivity].
   - cbn [render_clause_lines].
-    pose proof (gen_filler_spec (tok "c") true lay) as Hfl.
-    destruct (gen_filler (tok "c") true lay) as [fl l1]. cbn [fst] in Hfl.
+    pose proof (gen_filler_spec (tok "c") true false lay) as Hfl.
+    destruct (gen_filler (tok "c") true false lay) as [fl l1]. cbn [fst] in Hfl.
     destruct (render_clause_line_spec [] c l1 ltac:(constructor)) as [Hf [Hc _]].
     destruct (render_clause_line [] c l1) as [b l2]. cbn [fst] in Hf, Hc.
     destruct (next l2) as [e l3].
@@ -146,7 +149,7 @@ Proof.
     destruct (render_clause_lines (tok "c") true F l3) as [rest l4]. cbn [fst] in *.
     destruct IH as [IH1 IH2]. split.
     + apply Forall_app. split.
-      * apply (filler_clean_lines (tok "c") true); [reflexivity|exact Hfl].
+      * apply (filler_clean_lines (tok "c") true false); [reflexivity|exact Hfl].
       * constructor; [exact Hc|exact IH1].
     + rewrite map_app, <- app_assoc, expl_skip_filler by exact Hfl.
       cbn [map fst app expl_lines].
@@ -159,8 +162,8 @@ Theorem C13_explain_b : forall lay n F, wf_dimacs n F ->
   parse_explain_r (render_explain_b lay n F) = POk (n, Z.of_nat (List.length F), F).
 Proof.
   intros lay n F [Hn Hwf]. unfold render_explain_b.
-  pose proof (gen_filler_spec (tok "c") true lay) as Hfl.
-  destruct (gen_filler (tok "c") true lay) as [fl l1]. cbn [fst] in Hfl.
+  pose proof (gen_filler_spec (tok "c") true false lay) as Hfl.
+  destruct (gen_filler (tok "c") true false lay) as [fl l1]. cbn [fst] in Hfl.
   pose proof (header_fields "cnf" [n; Z.of_nat (List.length F)] l1 [] ltac:(discriminate)
                 gtok_cnf eq_refl) as Hhf.
   pose proof (header_clean "cnf" [n; Z.of_nat (List.length F)] l1 ltac:(discriminate) gtok_cnf) as Hhc.
@@ -168,14 +171,14 @@ Proof.
   rewrite app_nil_r in Hhf. destruct (next l2) as [e l3].
   pose proof (fun r => expl_clause_lines_spec F l3 n (Z.of_nat (List.length F)) [] r Hwf) as Hbody.
   destruct (render_clause_lines (tok "c") true F l3) as [body l4]. cbn [fst] in Hbody.
-  pose proof (gen_filler_spec (tok "c") true l4) as Hfl2.
-  destruct (gen_filler (tok "c") true l4) as [fl2 l5]. cbn [fst] in Hfl2.
+  pose proof (gen_filler_spec (tok "c") true false l4) as Hfl2.
+  destruct (gen_filler (tok "c") true false l4) as [fl2 l5]. cbn [fst] in Hfl2.
   destruct (next l5) as [o l6]. intros Hshort.
   destruct (Hbody (map fst fl2)) as [Cbody Hb].
   assert (Hclean : clean_lines (fl ++ (h, Nat.odd e) :: body ++ fl2)).
-  { apply Forall_app. split; [apply (filler_clean_lines (tok "c") true); [reflexivity|exact Hfl]|].
+  { apply Forall_app. split; [apply (filler_clean_lines (tok "c") true false); [reflexivity|exact Hfl]|].
     constructor; [exact Hhc|]. apply Forall_app. split; [exact Cbody|].
-    apply (filler_clean_lines (tok "c") true); [reflexivity|exact Hfl2]. }
+    apply (filler_clean_lines (tok "c") true false); [reflexivity|exact Hfl2]. }
   unfold parse_explain_r. rewrite scan_lines_join by assumption.
   rewrite map_app, expl_skip_filler by exact Hfl.
   cbn [map fst expl_lines].
@@ -301,25 +304,31 @@ Definition winv (n top : Z) (st : wstate) : Prop :=
   w_nbvars st = n /\ w_top st = top /\ n + 1 <= w_relax st /\ Forall nozero (w_goclauses st).
 
 Lemma wcnf_skip_filler : forall (fl : list tline) r st,
-  Forall (fun l => filler_line (tok "c") false (fst l)) fl ->
+  Forall (fun l => filler_line (tok "c") false false (fst l)) fl ->
   wcnf_lines (map fst fl ++ r) st = wcnf_lines r st.
 Proof.
   induction fl as [|[l e] fl IH]; intros r st H; [reflexivity|].
   inversion H as [|x y Hl Hr]; subst. cbn [fst] in Hl. cbn [map fst app wcnf_lines].
-  destruct Hl as [->|[t [_ ->]]]; [apply IH; exact Hr|].
-  cbn [tok list_ascii_of_string app wcnf_line].
-  change (Ascii.eqb "c" "p") with false. change (Ascii.eqb "c" "c") with true. cbv iota.
-  apply IH. exact Hr.
+  assert (Hline : wcnf_line l st = POk st).
+  { destruct Hl as [Hb|[ld [t [_ [Hld [_ ->]]]]]].
+    - unfold wcnf_line. destruct l as [|c0 l]; [reflexivity|].
+      rewrite trim_space_blank by (apply blanks_fspace; exact Hb). reflexivity.
+    - rewrite (Hld eq_refl). cbn [tok list_ascii_of_string app wcnf_line].
+      destruct (trim_space_head [] "c"%char t eq_refl eq_refl) as [t' Et]. cbn [app] in Et.
+      rewrite Et. change (Ascii.eqb "c" "p") with false. change (Ascii.eqb "c" "c") with true.
+      reflexivity. }
+  rewrite Hline. apply IH. exact Hr.
 Qed.
 
 Lemma wcnf_clause_line : forall b w c st n top,
   fields b = [print_Zl w] ++ lits_toks c ++ [tok "0"] ->
   (exists c0 r0, b = c0 :: r0 /\ Ascii.eqb c0 "p" = false /\ Ascii.eqb c0 "c" = false) ->
+  trim_space b <> [] ->
   winv n top st -> 0 <= n -> nozero c ->
   exists st', wcnf_line b st = POk st' /\ winv n top st' /\
               w_items st' = w_items st ++ [(w, c)].
 Proof.
-  intros b w c st n top Hf [c0 [r0 [Eb [Hp Hc]]]] [I1 [I2 [I3 I4]]] Hn Hz.
+  intros b w c st n top Hf [c0 [r0 [Eb [Hp Hc]]]] Htrim [I1 [I2 [I3 I4]]] Hn Hz.
   assert (Hcl : wcnf_clause b (w_top st) (w_relax st)
                 = POk (c, if (w_top st =? 0) || (w <? w_top st) then c ++ [w_relax st] else c, w)).
   { unfold wcnf_clause. rewrite Hf. cbn [app].
@@ -330,7 +339,9 @@ Proof.
     assert (Hrl : removelast (c ++ [0]) = c) by apply removelast_last.
     destruct (c ++ [0]) as [|x xs] eqn:E; [destruct c; discriminate|].
     destruct ((w_top st =? 0) || (w <? w_top st)); repeat f_equal; exact Hrl. }
-  rewrite Eb in *. cbn [wcnf_line]. rewrite Hp, Hc, Hcl.
+  rewrite Eb in *. cbn [wcnf_line].
+  destruct (trim_space (c0 :: r0)) as [|tt0 tt] eqn:Et; [congruence|].
+  rewrite Hp, Hc, Hcl.
   destruct ((w_top st =? 0) || (w <? w_top st)).
   - eexists. split; [reflexivity|]. split; [|reflexivity].
     unfold winv. cbn [w_nbvars w_top w_relax w_goclauses]. repeat split; try assumption; try lia.
@@ -351,8 +362,8 @@ Proof.
   - cbn [render_wclause_lines fst map app]. split; [constructor|].
     exists st. rewrite app_nil_r. auto.
   - inversion Hz as [|x y Hc Hzs]; subst. cbn [snd] in Hc. cbn [render_wclause_lines].
-    pose proof (gen_filler_spec (tok "c") false lay) as Hfl.
-    destruct (gen_filler (tok "c") false lay) as [fl l1]. cbn [fst] in Hfl.
+    pose proof (gen_filler_spec (tok "c") false false lay) as Hfl.
+    destruct (gen_filler (tok "c") false false lay) as [fl l1]. cbn [fst] in Hfl.
     destruct (render_clause_line_spec [print_Zl w] c l1
                 ltac:(constructor; [apply gtok_print_Zl|constructor]))
       as [Hf [Hcl [lead [rest0 [Eb [Hlead Hfirst]]]]]].
@@ -368,12 +379,19 @@ Proof.
       - exists b0. eexists. split; [rewrite Eb; reflexivity|].
         cbn [forallb] in Hlead. apply andb_true_iff in Hlead. destruct Hlead as [Hb0 _].
         clear - Hb0. codes. split; zcases. }
-    destruct (wcnf_clause_line b w c st n top Hf Hb0 Hinv Hn Hc) as [st1 [Hl1 [Hinv1 Hit1]]].
+    assert (Htrim : trim_space b <> []).
+    { destruct (print_Zl_first w) as [c0 [r0 [E Hc0]]].
+      destruct (Hfirst c0 r0 (lits_toks c ++ [tok "0"])) as [rest' Er].
+      { cbn [app]. rewrite E. reflexivity. }
+      destruct (trim_space_head lead c0 rest' (blanks_fspace _ Hlead)
+                  (graph_not_fspace c0 (numchar_graph c0 Hc0))) as [t' Et].
+      rewrite Eb, Er, Et. discriminate. }
+    destruct (wcnf_clause_line b w c st n top Hf Hb0 Htrim Hinv Hn Hc) as [st1 [Hl1 [Hinv1 Hit1]]].
     destruct (IH l3 st1 n top r Hinv1 Hn Hzs) as [IH1 [st' [IH2 [IH3 IH4]]]].
     destruct (render_wclause_lines items l3) as [rest l4]. cbn [fst] in *.
     split.
     + apply Forall_app. split.
-      * apply (filler_clean_lines (tok "c") false); [reflexivity|exact Hfl].
+      * apply (filler_clean_lines (tok "c") false false); [reflexivity|exact Hfl].
       * constructor; [exact Hcl|exact IH1].
     + exists st'. split; [|split; [exact IH3|]].
       * rewrite map_app, <- app_assoc, wcnf_skip_filler by exact Hfl.
@@ -391,6 +409,8 @@ Lemma wcnf_header_line : forall h n m top st,
   wcnf_line h st = POk (WState n top (n + 1) [] [] []).
 Proof.
   intros h n m top st [hb Eh] Hf Hm Ht. rewrite Eh in *. cbn [wcnf_line].
+  destruct (trim_space_head [] "p"%char hb eq_refl eq_refl) as [t' Et]. cbn [app] in Et.
+  rewrite Et.
   change (Ascii.eqb "p" "p") with true. cbv iota. rewrite Hf.
   destruct (top =? 0) eqn:E.
   - apply Z.eqb_eq in E. subst top. cbn [app map].
@@ -406,8 +426,8 @@ Theorem C13_wcnf_b : forall lay n top items, wf_wcnf (n, top, items) ->
   parse_wcnf_r (render_wcnf_b lay (n, top, items)) = POk (n, top, items).
 Proof.
   intros lay n top items [Hn Hz]. unfold render_wcnf_b.
-  pose proof (gen_filler_spec (tok "c") false lay) as Hfl.
-  destruct (gen_filler (tok "c") false lay) as [fl l1]. cbn [fst] in Hfl.
+  pose proof (gen_filler_spec (tok "c") false false lay) as Hfl.
+  destruct (gen_filler (tok "c") false false lay) as [fl l1]. cbn [fst] in Hfl.
   set (nums := [n; Z.of_nat (List.length items)] ++ (if top =? 0 then [] else [top])).
   assert (Hnums : nums <> []) by (unfold nums; discriminate).
   pose proof (header_fields "wcnf" nums l1 [] Hnums gtok_wcnf eq_refl) as Hhf.
@@ -419,14 +439,14 @@ Proof.
   { unfold winv. cbn. repeat split; try lia. constructor. }
   pose proof (fun r => wclause_lines_spec items l3 _ n top r Hinv0 Hn Hz) as Hbody.
   destruct (render_wclause_lines items l3) as [body l4]. cbn [fst] in Hbody.
-  pose proof (gen_filler_spec (tok "c") false l4) as Hfl2.
-  destruct (gen_filler (tok "c") false l4) as [fl2 l5]. cbn [fst] in Hfl2.
+  pose proof (gen_filler_spec (tok "c") false false l4) as Hfl2.
+  destruct (gen_filler (tok "c") false false l4) as [fl2 l5]. cbn [fst] in Hfl2.
   destruct (next l5) as [o l6]. intros Hshort.
   destruct (Hbody (map fst fl2)) as [Cbody [st' [Hb [[J1 [J2 [J3 J4]]] Hitems]]]].
   assert (Hclean : clean_lines (fl ++ (h, Nat.odd e) :: body ++ fl2)).
-  { apply Forall_app. split; [apply (filler_clean_lines (tok "c") false); [reflexivity|exact Hfl]|].
+  { apply Forall_app. split; [apply (filler_clean_lines (tok "c") false false); [reflexivity|exact Hfl]|].
     constructor; [exact Hhc|]. apply Forall_app. split; [exact Cbody|].
-    apply (filler_clean_lines (tok "c") false); [reflexivity|exact Hfl2]. }
+    apply (filler_clean_lines (tok "c") false false); [reflexivity|exact Hfl2]. }
   unfold parse_wcnf_r, parse_wcnf_state. rewrite scan_lines_join by assumption.
   rewrite map_app, wcnf_skip_filler by exact Hfl.
   cbn [map fst wcnf_lines].
